@@ -102,8 +102,11 @@ func genLeaf(t *rapid.T, c TreeCfg) *Node {
 		pk := c.Vals
 		pk.Wild, pk.Regexp = false, false
 		cnt := rapid.IntRange(2, 4).Draw(t, "nvals")
-		if rapid.IntRange(0, 19).Draw(t, "biglist") == 0 {
+		switch rapid.IntRange(0, 39).Draw(t, "biglist") {
+		case 0, 1:
 			cnt = rapid.IntRange(5, 40).Draw(t, "nbig")
+		case 2: // sizes around powers of two and their multiples (buffers, run lengths)
+			cnt = rapid.SampledFrom([]int{15, 16, 17, 31, 32, 33, 63, 64, 65, 96, 127, 128, 129, 255, 256, 257}).Draw(t, "nedge")
 		}
 		for i := 0; i < cnt; i++ {
 			if i > 0 && rapid.IntRange(0, 7).Draw(t, "dup") == 0 {
@@ -335,6 +338,18 @@ func NestInTermPosition(t *rapid.T, toks []Tok) []Tok {
 	c := ParseCfg
 	c.MaxDepth = 1
 	sub := Print(genNode(t, c, 0), Opts{}).Toks
+	if rapid.IntRange(0, 3).Draw(t, "illformed") == 0 {
+		// grammatical token runs whose tree has a non-term in a field position
+		a, b, d := Term(Word("p")), Term(Word("q")), Term(Word("r"))
+		sub = rapid.SampledFrom([][]Tok{
+			{a, Sym(":"), b, Sym(":"), d},
+			{Sym("("), a, b, Sym(")"), Sym(":"), Sym("["), Term(Int(1)), Kw("TO", "TO"), Term(Int(2)), Sym("]")},
+			{Sym("("), a, Kw("OR", "OR"), b, Sym(")"), Sym(":"), Term(Wild("e*"))},
+			{Sym("("), a, Kw("AND", "AND"), b, Sym(")"), Sym(":"), Sym(">"), Term(Int(5))},
+			{Sym("("), Kw("NOT", "NOT"), a, Sym(")"), Sym("="), b},
+			{a, Sym(":"), Sym("("), b, Sym(":"), d, Sym(":"), a, Sym(")")},
+		}).Draw(t, "illsub")
+	}
 	if rapid.Bool().Draw(t, "nestparen") {
 		sub = append(append([]Tok{Sym("(")}, sub...), Sym(")"))
 	}
